@@ -885,6 +885,9 @@ class EClass(EClassifier):
             return
         if notif.feature is EClass.eSuperTypes:
             self._update_supertypes()
+        elif notif.feature is EClass.eGenericSuperTypes:
+            # a generic super type is a base of the Python class as well
+            self._update_supertypes()
         elif notif.kind in (Kind.REMOVE, Kind.REMOVE_MANY):
             is_operation = notif.feature is EClass.eOperations
             removed = (notif.old,) if notif.kind is Kind.REMOVE else notif.old
@@ -934,14 +937,13 @@ class EClass(EClassifier):
                 self.python_class.__bases__ = new_supers
 
     def __compute_supertypes(self):
-        if not self.eSuperTypes and not self.eGenericSuperTypes:
+        eSuperTypes = list(self.eSuperTypes)
+        eSuperTypes.extend(x.eClassifier for x in self.eGenericSuperTypes if x.eClassifier is not None)
+        if not eSuperTypes:  # also: generic super types without classifier (yet)
             return (EObject,)
-        else:
-            eSuperTypes = list(self.eSuperTypes)
-            eSuperTypes.extend(x.eClassifier for x in self.eGenericSuperTypes if x.eClassifier is not None)
-            if len(eSuperTypes) > 1 and EObject.eClass in eSuperTypes:
-                eSuperTypes.remove(EObject.eClass)
-            return tuple(x.python_class for x in eSuperTypes)
+        if len(eSuperTypes) > 1 and EObject.eClass in eSuperTypes:
+            eSuperTypes.remove(EObject.eClass)
+        return tuple(x.python_class for x in eSuperTypes)
 
     def __repr__(self):
         return f'<{self.__class__.__name__} name="{self.name}">'
@@ -964,6 +966,13 @@ class EClass(EClassifier):
     def _eAllSuperTypes_gen(self):
         yield from (x.force_resolve() for x in self.eSuperTypes)
         for x in self.eSuperTypes:
+            yield from x._eAllSuperTypes_gen()
+        # features are inherited through the generic super types as well
+        # (see _eAllStructuralFeatures_gen): their classifiers are super types
+        generic_supers = [x.eClassifier for x in self.eGenericSuperTypes
+                          if x.eClassifier is not None]
+        yield from generic_supers
+        for x in generic_supers:
             yield from x._eAllSuperTypes_gen()
 
     def eAllSuperTypes(self):
